@@ -253,7 +253,7 @@ def main():
                                'symbolic identifier per (rule, position, length); z3 decides equality of the two results on every path')
     setup()
     fns = G['fns']
-    N, NU = (5, 3) if TIER == 'quick' else (8, 5)
+    N, NU = (5, 3) if TIER == 'quick' else (7, 4)       # (8, 5) ran past 45 minutes on 16 cores
     G['time_budget'] = 1500 if TIER == 'quick' else 7000
     rep.functions = describe(fns, [G['ts_field'], G['ts_variant'], G['sd_field'], G['sd_variant']])
     rep.configs = ['ts-rs-macros: serde-compat', f'oracle: serde_derive {G["serde_ver"]} internals/case.rs (from Cargo.lock)']
